@@ -20,6 +20,7 @@ import RateslibModel.Props.C04
 import RateslibModel.Props.C05
 import RateslibModel.Props.C08
 import RateslibModel.Proofs.Load
+import RateslibModel.Proofs.NewFrom
 import RateslibModel.Model.Spline
 namespace Rateslib
 open DR
@@ -252,6 +253,46 @@ theorem C20_dual2_try_new (re : α) (vs : List String) (ds hs : List α) (d : Du
       · rw [if_neg hh] at h
         injection h with h; subst h
         exact ⟨rfl, hl.symm, (reshape_shape _ _).1⟩
+
+/-- `Dual::try_new_from` (a fresh number on ANOTHER number's variable list): an error, or a number with exactly that
+list and as many sensitivities. -/
+theorem C20_dual_try_new_from (ov : List String) (re : α) (vs : List String) (ds : List α) (r : Dual α)
+    (h : Dual.tryNewFrom ov re vs ds = some r) : r.vars = ov ∧ r.dual.length = r.vars.length := by
+  unfold Dual.tryNewFrom at h
+  cases hd : Dual.tryNew re vs ds with
+  | none => rw [hd] at h; cases h
+  | some d =>
+    rw [hd] at h; injection h with h; subst h
+    have hs := C20_dual_try_new re vs ds d hd
+    by_cases hv : varsCmp false d.vars ov = .valEq
+    · have e := varsCmp_false_valEq _ _ hv
+      simp only [hv, Dual.toNewVars]
+      exact ⟨trivial, by rw [← e]; exact hs.2⟩
+    · have h1 := varsCmp_false_ne_arcEq d.vars ov
+      have : d.toNewVars ov (varsCmp false d.vars ov) = ⟨d.real, ov, ov.map (lookupOrZero d.vars d.dual)⟩ := by
+        cases hc : varsCmp false d.vars ov <;> simp_all [Dual.toNewVars]
+      rw [this]; exact ⟨rfl, by simp⟩
+
+/-- `Dual2::try_new_from`: an error, or a number with exactly the other list, as many sensitivities and as many
+Hessian rows. -/
+theorem C20_dual2_try_new_from (ov : List String) (re : α) (vs : List String) (ds hs : List α) (r : Dual2 α)
+    (h : Dual2.tryNewFrom ov re vs ds hs = some r) :
+    r.vars = ov ∧ r.dual.length = r.vars.length ∧ r.dual2.length = r.vars.length := by
+  unfold Dual2.tryNewFrom at h
+  cases hd : Dual2.tryNew re vs ds hs with
+  | none => rw [hd] at h; cases h
+  | some d =>
+    rw [hd] at h; injection h with h; subst h
+    have hs' := C20_dual2_try_new re vs ds hs d hd
+    by_cases hv : varsCmp false d.vars ov = .valEq
+    · have e := varsCmp_false_valEq _ _ hv
+      simp only [hv, Dual2.toNewVars]
+      exact ⟨trivial, by rw [← e]; exact hs'.2.1, by rw [← e]; exact hs'.2.2⟩
+    · have h1 := varsCmp_false_ne_arcEq d.vars ov
+      have : d.toNewVars ov (varsCmp false d.vars ov) = ⟨d.real, ov, ov.map (lookupOrZero d.vars d.dual),
+          ov.map (fun v => ov.map (fun w => lookup2OrZero d.vars d.dual2 v w))⟩ := by
+        cases hc : varsCmp false d.vars ov <;> simp_all [Dual2.toNewVars]
+      rw [this]; exact ⟨rfl, by simp, by simp⟩
 
 end Constructors
 
